@@ -2,6 +2,7 @@ package jschema
 
 import (
 	schema "github.com/jsightapi/jsight-schema-core"
+	"github.com/jsightapi/jsight-schema-core/rules/enum"
 	"github.com/jsightapi/jsight-schema-core/zzverif"
 )
 
@@ -10,6 +11,8 @@ type mLayout struct {
 	nl         string // line break
 	indent     string
 	colonGap   string // blanks after ':' in members
+	nameGap    string // blanks between a rule name and its ':'
+	closeGap   string // blanks before the '}' that closes a rule set
 	annGap     string // blanks between element and annotation
 	multi      bool   // write annotations as /* */ instead of //
 	quoteNames bool   // quote rule names
@@ -32,9 +35,9 @@ func mAnnotationL(n mNode, L mLayout) string {
 			if L.quoteNames {
 				name = `"` + name + `"`
 			}
-			body += name + ":" + L.colonGap + r.text
+			body += name + L.nameGap + ":" + L.colonGap + r.text
 		}
-		body += "}"
+		body += L.closeGap + "}"
 	}
 	if n.note != "" {
 		if body != "" {
@@ -105,7 +108,7 @@ func mCanonical() mLayout {
 
 // mVary changes ONE layout dimension of L (chosen symbolically).
 func mVary(L mLayout, tag string) mLayout {
-	switch zzverif.IntRange(tag+"dim", 0, 8) {
+	switch zzverif.IntRange(tag+"dim", 0, 10) {
 	case 0:
 		L.nl = []string{"\r\n", "\r"}[zzverif.IntRange(tag+"nl", 0, 1)]
 	case 1:
@@ -122,6 +125,10 @@ func mVary(L mLayout, tag string) mLayout {
 		L.comments = zzverif.IntRange(tag+"comments", 1, 3)
 	case 7:
 		L.lead = L.nl + " " + L.nl
+	case 9:
+		L.nameGap = []string{" ", "\t", "  "}[zzverif.IntRange(tag+"nameGap", 0, 2)]
+	case 10:
+		L.closeGap = []string{" ", "\t"}[zzverif.IntRange(tag+"closeGap", 0, 1)]
 	default:
 		L.tail = L.nl + "\t" + L.nl
 	}
@@ -138,10 +145,13 @@ func mVaried() mLayout {
 	return L
 }
 
+var mModelNo int // the model chosen on this path (for the reachability witnesses)
+
 func mModel() mNode {
 	d := string([]byte{zzverif.Digit("d")})
 	sc := string([]byte{zzverif.OneOf("s", "ab.")})
-	switch zzverif.IntRange("model", 0, 5) {
+	mModelNo = zzverif.IntRange("model", 0, 7)
+	switch mModelNo {
 	case 0:
 		return mNode{kind: schema.TokenTypeNumber, valText: d, valWant: d,
 			rules: []mRule{{"min", "3", mNum(schema.TokenTypeNumber, "3")}, {"max", "7", mNum(schema.TokenTypeNumber, "7")}}, note: mNote("n.")}
@@ -154,6 +164,16 @@ func mModel() mNode {
 			{kind: schema.TokenTypeNumber, key: "a", valText: d, valWant: d, rules: []mRule{{"min", "3", mNum(schema.TokenTypeNumber, "3")}}, note: mNote("a.")},
 			{kind: schema.TokenTypeString, key: "b", valText: `"` + sc + `"`, valWant: sc, rules: []mRule{{"optional", "true", mNum(schema.TokenTypeBoolean, "true")}}},
 			{kind: schema.TokenTypeShortcut, key: "c", valText: "@t", valWant: "@t"},
+		}
+		return root
+	case 6: // a reference to a named enum rule as the LAST rule of the set
+		return mNode{kind: schema.TokenTypeNumber, valText: d, valWant: d,
+			rules: []mRule{{"nullable", "false", mNum(schema.TokenTypeBoolean, "false")}, {"enum", "@e", schema.RuleASTNode{}}}, note: mNote("n.")}
+	case 7: // ... and as the only rule of a member
+		root := mNode{kind: schema.TokenTypeObject}
+		root.children = []mNode{
+			{kind: schema.TokenTypeNumber, key: "a", valText: d, valWant: d, rules: []mRule{{"enum", "@e", schema.RuleASTNode{}}}},
+			{kind: schema.TokenTypeString, key: "b", valText: `"` + sc + `"`, valWant: sc, note: mNote("b.")},
 		}
 		return root
 	case 4: // a user comment after the note is part of the text in BOTH layouts
@@ -188,13 +208,16 @@ func mModel() mNode {
 // user comments): same verdict and code; when accepted the same AST, example
 // and used-type list.
 func VerifC14_Layout() {
-	zzverif.Expect("accepted", "rejected")
+	// every model must be accepted under some layout pair: a model that is
+	// always rejected (e.g. for a missing rule) would compare nothing
+	zzverif.Expect("accepted", "rejected", "accepted-0", "accepted-1", "accepted-2", "accepted-3", "accepted-4", "accepted-5", "accepted-6", "accepted-7")
 	m := mModel()
 	t1 := mPrintL(m, mCanonical())
 	t2 := mPrintL(m, mVaried())
 	withU := zzverif.Bool("registerU")
 	mk2 := func(text string) *JSchema {
 		s := New("s", text)
+		_ = s.AddRule("@e", enum.New("@e", "[1, 2, 3, 4, 5]")) // rules first: AddType loads the text
 		_ = s.AddType("@t", New("@t", `"x"`))
 		if withU {
 			_ = s.AddType("@u", New("@u", `1`))
@@ -210,6 +233,7 @@ func VerifC14_Layout() {
 		return
 	}
 	zzverif.Reach("accepted")
+	zzverif.Reach("accepted-" + string([]byte{byte('0' + mModelNo)}))
 	a1, _ := s1.GetAST()
 	a2, _ := s2.GetAST()
 	zzverif.Assert(vSameAST(a1, a2), "same AST under every layout")
